@@ -4,7 +4,11 @@
 //
 //	rl <step>/<step>/…   a trust-table RELOAD HISTORY through the real module: `L.<version hex>.<ranges|_>.<kind>` writes the
 //	                     data file (kind ok | badjson | nover | badrange | badip) and runs Init (first step) or the reload
-//	                     handler; `C.<connection as in ca, t=_>` is a connection judged against the table in force
+//	                     handler; `C.<connection as in ca, t=_>` is a connection judged against the table in force;
+//	                     `W.<connection>;sk=<socket ip16>:<port>;px=<none|v1|unknown|bare>;seg=<segmentation>` is the same from
+//	                     WIRE BYTES through the real connection path: BfeListener.Accept (PROXY protocol wrapping when px != none),
+//	                     newConn, the HandleAccept callbacks the module registered, conn.readRequest, setClientAddr; the header
+//	                     map is sent as field lines, px=v1 prepends "PROXY TCP4/TCP6 <p> <local> <pp> 8080", delivered in segments
 //
 // After mod_header the request copy goes through the REAL httpProtoSet + hopByHopHeaderRemove (`up=` = headers sent upstream).
 // runs the REAL mod_trust_clientip (ipItemsMake + IPTable + acceptHandler) on a session of that peer, the REAL
@@ -367,11 +371,110 @@ func execHistory(spec string) string {
 			}
 			m := mod
 			out = append(out, runConn(in, func(s *bfe_basic.Session) error { m.Accept(s); return nil }))
+		case len(f) == 2 && f[0] == "W":
+			parts := strings.SplitN(f[1], ";sk=", 2)
+			if len(parts) != 2 || mod == nil {
+				return "bad-op"
+			}
+			in, ok := decode(parts[0])
+			if !ok || len(in.ranges) != 0 || !checkInput(in, parts[0]) {
+				return "bad-op"
+			}
+			ex := strings.Split(parts[1], ";")
+			if len(ex) != 3 || !strings.HasPrefix(ex[1], "px=") || !strings.HasPrefix(ex[2], "seg=") {
+				return "bad-op"
+			}
+			sk := strings.Split(ex[0], ":")
+			skip, ok1 := vh.UnHex(sk[0])
+			if len(sk) != 2 || !ok1 || len(skip) != 16 {
+				return "bad-op"
+			}
+			skport, err := strconv.Atoi(sk[1])
+			if err != nil {
+				return "bad-op"
+			}
+			r := wireConn(in, net.IP(skip), skport, ex[1][3:], ex[2][4:], mod)
+			if r == "" {
+				return "bad-op"
+			}
+			out = append(out, r)
 		default:
 			return "bad-op"
 		}
 	}
 	return strings.Join(out, "/")
+}
+
+type segConn struct {
+	fakeConn
+	r *c25lib.SegReader
+}
+
+func (c *segConn) Read(b []byte) (int, error) { return c.r.Read(b) }
+
+// wireConn: the connection of in, from wire bytes, through the real listener/conn path ("" = op not well-formed).
+func wireConn(in *input, sock net.IP, sockPort int, px, seg string, mod *mod_trust_clientip.VerifC29Module) string {
+	var b strings.Builder
+	local := net.ParseIP(in.local)
+	switch px {
+	case "none", "bare":
+	case "unknown":
+		b.WriteString("PROXY UNKNOWN\r\n")
+	case "v1":
+		fam := "TCP6"
+		l := "2001:db8::ff"
+		if in.peer.To4() != nil {
+			fam, l = "TCP4", "10.9.8.7"
+		}
+		b.WriteString(fmt.Sprintf("PROXY %s %s %s %d 8080\r\n", fam, in.peer.String(), l, in.port))
+	default:
+		return ""
+	}
+	if in.host == "" {
+		return ""
+	}
+	b.WriteString("GET / HTTP/1.1\r\nHost: " + in.host + "\r\n")
+	keys := make([]string, 0, len(in.hdr))
+	for k := range in.hdr {
+		keys = append(keys, k)
+	}
+	sortStrings(keys)
+	for _, k := range keys {
+		if len(in.hdr[k]) == 0 {
+			return ""
+		}
+		for _, v := range in.hdr[k] {
+			if v != strings.TrimSpace(v) || strings.ContainsAny(v, "\r\n") || strings.Trim(v, " \t") != v {
+				return ""
+			}
+			b.WriteString(k + ": " + v + "\r\n")
+		}
+	}
+	b.WriteString("\r\n")
+	sr, ok := c25lib.NewSegReader([]byte(b.String()), seg)
+	if !ok {
+		return ""
+	}
+	conn := &segConn{fakeConn: fakeConn{local: &net.TCPAddr{IP: local, Port: 8080}, remote: &net.TCPAddr{IP: sock, Port: sockPort}}, r: sr}
+	balancer := "PROXY"
+	if px == "none" {
+		balancer = "NONE"
+	}
+	req, err := bfe_server.VerifC29Conn(conn, balancer, mod.Cbs)
+	if err != nil || req == nil {
+		return "reject"
+	}
+	hreq := req.HttpRequest
+	mod_header.VerifSetDefaultHeader(req)
+	outreq := new(bfe_http.Request)
+	*outreq = *hreq
+	bfe_server.VerifHttpProtoSet(outreq)
+	bfe_server.VerifHopByHopHeaderRemove(outreq, hreq)
+	ca := "nil"
+	if req.ClientAddr != nil {
+		ca = hx(req.ClientAddr.IP.String()) + ":" + strconv.Itoa(req.ClientAddr.Port)
+	}
+	return "ca=" + ca + " hd=" + c25lib.HeaderString(nonEmpty(hreq.Header)) + " up=" + c25lib.HeaderString(nonEmpty(outreq.Header))
 }
 
 func exec(op string) string {
@@ -586,7 +689,18 @@ func genHistory(r *vh.Rand) string {
 			in.hdr["Connection"] = []string{r.Pick("X-Real-Ip", "x-forwarded-for, x-real-port", "close")}
 		}
 		in.facts()
-		return "C." + strings.TrimPrefix(in.encode(), "ca ")
+		base := strings.TrimPrefix(in.encode(), "ca ")
+		if !r.Chance(1, 2) {
+			return "C." + base
+		}
+		// the same connection from wire bytes through the real listener / conn path
+		px := r.Pick("none", "none", "v1", "v1", "unknown", "bare")
+		sock, sockPort := in.peer, in.port
+		if px == "v1" { // the socket peer is the load balancer, the PROXY header carries the client
+			sock, sockPort = net.ParseIP(r.Pick("10.200.0.1", "2001:db8:ffff::1")), 33333
+		}
+		seg := r.Pick("-", "-", "1", "e1", "c5,6,7,30", "ec3,40,41,42")
+		return "W." + base + ";sk=" + vh.Hex(sock.To16()) + ":" + strconv.Itoa(sockPort) + ";px=" + px + ";seg=" + seg
 	}
 	n := r.Range(2, 7)
 	for i := 0; i < n; i++ {
